@@ -1,6 +1,6 @@
 """Per-property configuration of bin/check."""
 
-MC_LAYER = {"module": "MC_RustFFT.tla", "cfg": "MC_RustFFT.cfg", "cfg_quick": "MC_RustFFT_quick.cfg", "timeout": 900}
+MC_LAYER = {"module": "MC_RustFFT.tla", "cfg": "MC_RustFFT.cfg", "cfg_quick": "MC_RustFFT_quick.cfg", "timeout": 3600}
 
 MC_CALL = {"module": "MC_CallProtocol.tla", "cfg": "MC_CallProtocol.cfg", "timeout": 600}
 MC_PLAN = {"module": "MC_Planners.tla", "cfg": "MC_Planners.cfg", "cfg_quick": "MC_Planners_quick.cfg", "timeout": 3000, "xss": "1g"}
